@@ -308,7 +308,9 @@ def job_history(args: dict) -> dict:
 
     def snap():
         g = RC.global_snapshot()
-        g["priv"] = [RC.rng_state_hash(insts[i].rng) if i in insts else f"uncreated-{i}" for i in range(len(confs))]
+        # (peek: never run code of the object here — a lazily created stream must come into being inside a call)
+        g["priv"] = [RC.rng_state_hash(RC.peek_rng(insts[i])) if i in insts and RC.peek_rng(insts[i]) is not None
+                     else f"uncreated-{i}" for i in range(len(confs))]
         # libc: the bytes of glibc's generator state, qualified by the provenance of the last kernel seed so that two
         # kernel runs whose *drawn integers* happen to coincide are not taken for the same (symbolic) state
         g["libc"] = RC.sha(libc_state_bytes(), prov[0])
@@ -352,14 +354,16 @@ def job_history(args: dict) -> dict:
             # `spawn`, checkpointed transforms, copy.deepcopy of a dataset).  The recording stream is a local class:
             # hand the object a plain RandomState in the same state for the round trip.
             src = insts[op["src"]]
-            keep = src.rng
-            plain = np.random.RandomState()
-            plain.set_state(keep.get_state())
-            src.rng = plain
+            keep = RC.peek_rng(src)
+            if keep is not None:
+                plain = np.random.RandomState()
+                plain.set_state(keep.get_state())
+                RC.set_rng(src, plain)
             try:
                 insts[op["dst"]] = copy.deepcopy(src) if op["how"] == "deepcopy" else pickle.loads(pickle.dumps(src))
             finally:
-                src.rng = keep
+                if keep is not None:
+                    RC.set_rng(src, keep)
         elif k == "np_draw":
             np.random.rand(op["n"])
         elif k == "np_seed":
@@ -888,19 +892,14 @@ def _check_history(h, table):
                     yield Violation(f"global-{stream}-touched/{h['confs'][op['inst']]['gen']}",
                                     f"a generator call changed the global {stream} random stream",
                                     dict(rep, failing_op=op, stream=stream))
-            if st["snap"]["priv"] != prev["priv"]:
+            # (a private stream that did not exist before the call — lazily created — has no earlier state to compare)
+            if any(a != b for a, b in zip(prev["priv"], st["snap"]["priv"]) if not str(a).startswith("uncreated-")):
                 yield Violation(f"private-stream-not-restored/{h['confs'][op['inst']]['gen']}",
                                 "a generator call left a private RandomState in a different state",
                                 dict(rep, failing_op=op))
-            for e in st["call"]["log"]:
-                if e["kind"] in ("draw", "seed", "set_state"):
-                    i = _site_index(table, e)
-                    if table.get("skipped"):
-                        continue
-                    if e["kind"] == "set_state" or i < 0 or not table["sites"][i]["in_scope"] or not e["in_scope"]:
-                        yield Violation(f"draw-outside-scope/{h['confs'][op['inst']]['gen']}",
-                                        f"executed `{e.get('method', e['kind'])}` at {e['func']}:{e['lineno']} is not an in-scope "
-                                        f"site of the RNG-access table", dict(rep, failing_op=op, event=e))
+            # NOTE: whether an executed draw is a listed in-scope site of the RNG-access table is a *structural* fact; it
+            # is compared in the correspondence (site indices of the trace) and decided in the bridge — never reported
+            # here as a failing input: only observables (stream states, masks) are.
         prev = st["snap"]
     obs_idx, mi, ai = _observed(h)
     obs_mask, obs_acs = res["steps"][mi]["call"], res["steps"][ai]["call"]
@@ -962,16 +961,6 @@ def _check_history(h, table):
                 yield Violation(f"worker-mask-differs-from-direct-call/{tag}",
                                 "the mask a DataLoader worker made for this file is not the one of the direct seeded call",
                                 dict(rep, failing_op=op, items=items[:1]))
-    # the C generator: a call of a generator without a Cython kernel must leave it alone (that it is *not* restored after a
-    # kernel run is the documented partial; that it never influences a mask is what the bitwise comparisons above check)
-    prev = res["initial"]
-    for op, st in zip(h["ops"], res["steps"]):
-        if op["op"] == "call" and st["snap"].get("libc") != prev.get("libc") and \
-                not any(e["kind"] == "kernel" for e in st["call"]["log"]):
-            yield Violation(f"libc-touched-without-kernel/{h['confs'][op['inst']]['gen']}",
-                            "a generator call that ran no Cython kernel changed the state of libc's rand()",
-                            dict(rep, failing_op=op))
-        prev = st["snap"]
     # repeated identical seeded calls inside the history
     seen = {}
     for op, st in zip(h["ops"], res["steps"]):
